@@ -6,6 +6,7 @@
     [merge_level_old]).  [ks] is the key map of the level as written in the file, [NoDup (map fst ks)] = keys of a map.
     Oracles (universally quantified, never axioms): the CLDR category [cat : locale -> rule -> operand -> form],
     [categories : locale -> rule -> list form] (ICU4X data) and [is_key] (`Key::new(base).is_some()`).
+    A base key that is not an identifier is an InvalidKey error ([EInvalid]), not a panic.
     Vocabulary (Plurals.v): [members ks b] = the keys `b[_ordinal]_<form>` of the level (value neither range table nor
     sub-object); [mergeable ks b] = at least two of them, one `_other`; [remaining ks] = keys not in a mergeable group;
     [mixed ks b] = cardinal and ordinal members; [collides ks b] = a remaining key is named b;
@@ -39,15 +40,20 @@ Theorem C05_select :
         end.
 Proof. exact select_level. Qed.
 
-(** mixing cardinal and ordinal forms under one key, or colliding with an existing key, is an error naming the key —
-    and nothing else is (when every merged base key is a valid identifier, otherwise see C09) *)
+(** mixing cardinal and ordinal forms under one key, colliding with an existing key, or declaring a plural whose base
+    key is not an identifier (`in_one` + `in_other`) is an error naming the key — nothing else is, and merging never
+    panics (fixes/C09-plural-base-key-not-identifier.diff; the pre-fix behaviour is [merge_level_panic_old]) *)
 Theorem C05_conflicts : forall is_key cats path ks, NoDup (map fst ks) ->
-  (forall b, mergeable ks b = true -> is_key b = true) ->
-  ((exists b, mergeable ks b = true /\ (mixed ks b = true \/ collides ks b = true)) <->
+  ((exists b, mergeable ks b = true /\ (is_key b = false \/ mixed ks b = true \/ collides ks b = true)) <->
    (exists k p, merge_level is_key cats path ks = RErr k p)) /\
   (forall k p, merge_level is_key cats path ks = RErr k p ->
-     exists b, p = path ++ [b] /\ mergeable ks b = true /\
-               match k with EConflict => mixed ks b = true | ECollide => collides ks b = true end).
+     exists b, mergeable ks b = true /\
+               match k with
+               | EConflict => p = path ++ [b] /\ mixed ks b = true
+               | ECollide => p = path ++ [b] /\ collides ks b = true
+               | EInvalid => p = [b] /\ is_key b = false
+               end) /\
+  merge_level is_key cats path ks <> RPanic.
 Proof. exact conflicts_level. Qed.
 
 (** UnusedForm(f) is reported iff f is written (other than `_other`) under a merged key and f is not a category of
@@ -99,6 +105,13 @@ Theorem C05_old_refuted :
   merge_level_old (fun _ => true) w_cats [] w_keys = ROk [(w_x, PluralV Ordinal 3 [(One, 2)])] [] /\
   spec_C05 (fun _ => true) w_cats [] w_keys (merge_level_old (fun _ => true) w_cats [] w_keys) = false.
 Proof. exact old_model_refuted. Qed.
+
+(** before the base-key repair `in_one` + `in_other` panicked (spec_C05 is false on a panic); now InvalidKey("in") *)
+Theorem C05_panic_old_refuted :
+  merge_level_panic_old w_is_key w_cats [] w_in_keys = RPanic /\
+  spec_C05 w_is_key w_cats [] w_in_keys (merge_level_panic_old w_is_key w_cats [] w_in_keys) = false /\
+  merge_level w_is_key w_cats [] w_in_keys = RErr EInvalid [w_in].
+Proof. exact panic_old_refuted. Qed.
 
 (** the algorithm before the lone-`_other` repair (first pass only): the cross-locale clause fails when a locale
     writes only `x_other` for a key another locale merges; the repaired algorithm merges it *)
